@@ -53,6 +53,23 @@ def call_method(I, recv, name, args, kwargs):
             except LookupError:
                 raise PyRaise(ExcVal(LookupError))
         return str_method(I, recv, k, name, args, kwargs)
+    if type(recv).__name__ == '_LazyGen':
+        if name == 'count':
+            r = p.fresh('int', 'count')
+            p.assume(r.t >= 0)
+            p.note_assumption('count() over a filtered symbolic list is abstracted to an arbitrary non-negative integer')
+            return r
+        raise Unsupported(f'method {name} on a comprehension over a symbolic list')
+    if type(recv).__name__ == 'SymList':
+        from . import heap as H
+        if name == 'insert':
+            return H.lst_insert(I, recv, args[0], args[1])
+        if name == 'append':
+            return H._append(I, recv, args[0])
+        mm = I.p.engine.models.get(('method', 'SymList', name))
+        if mm is not None:
+            return mm.fn(I, [recv] + list(args), kwargs)
+        raise Unsupported(f'method {name} on a symbolic list')
     if isinstance(recv, SList):
         return list_method(I, recv, name, args, kwargs)
     if isinstance(recv, SDict):
@@ -337,6 +354,22 @@ def py_isinstance(I, v, cls):
     if isinstance(v, Sym):
         pyt = {'int': int, 'bool': bool, 'str': str, 'bytes': bytes}[v.kind]
         return any(issubclass(pyt, c) for c in classes)
+    if type(v).__name__ == 'SymObj':
+        cbt = getattr(v.schema, 'class_by_type', None)
+        if cbt is not None and not all(issubclass(v.schema.cls, c) for c in classes if True) :
+            # the dynamic class of a rule object is determined by its (immutable) type constant
+            from . import heap as H
+            tt = H.read_field(I, v, 'type').t
+            hits = [tt == tv for tv, k in cbt.items() if any(issubclass(k, c) for c in classes)]
+            if any(issubclass(v.schema.cls, c) for c in classes) and len(hits) == len(cbt):
+                return True
+            r = z3_or(*hits)
+            return r if isinstance(r, bool) else Sym('bool', r)
+        if isinstance(v.schema.cls, type):
+            return any(issubclass(v.schema.cls, c) for c in classes)
+        raise Unsupported('isinstance on a schema without class')
+    if type(v).__name__ in ('SymList', 'ListView'):
+        return any(issubclass(list, c) for c in classes) and not any(c.__name__ == 'CSSRuleList' for c in classes if c is not list and c is not object)
     if isinstance(v, Obj):
         if isinstance(v.cls, type):
             return any(issubclass(v.cls, c) for c in classes)
@@ -357,6 +390,10 @@ def py_isinstance(I, v, cls):
 def py_len(I, v):
     if isinstance(v, Opt):
         v = I.unwrap(v, TypeError)
+    if type(v).__name__ == 'SymList':
+        return Sym('int', v.length)
+    if type(v).__name__ == 'ListView':
+        return Sym('int', v.count())
     if isinstance(v, Sym) and v.kind in ('str', 'bytes'):
         return Sym('int', z3.Length(v.t))
     if isinstance(v, SList):
@@ -493,10 +530,22 @@ def py_tuple(I, v=()):
 
 
 def py_enumerate(I, v, start=0):
+    v = I.resolve_iterable(v)
+    if type(v).__name__ in ('SymList', 'ListView'):
+        from . import heap as H
+        w = H.view_of(v)
+        return H.ListView(w.base, w.lo, w.hi, w.rev, True, start)
     return SList([(i + start, x) for i, x in enumerate(I.iter_items(v))])
 
 
 def py_reversed(I, v):
+    v = I.resolve_iterable(v)
+    if type(v).__name__ in ('SymList', 'ListView'):
+        from . import heap as H
+        w = H.view_of(v)
+        if w.enum:
+            raise Unsupported('reversed(enumerate(..))')
+        return H.ListView(w.base, w.lo, w.hi, not w.rev, False)
     return SList(list(I.iter_items(v))[::-1])
 
 
@@ -695,7 +744,12 @@ def call_native(I, f, args, kwargs):
         raise Unsupported(f'call to {f.__module__}.{f.__qualname__} without contract')
     if f is range:
         if _has_sym(tuple(args)):
-            raise Unsupported('range with symbolic bound')
+            from .symex import _SymRange
+            if len(args) == 1:
+                return _SymRange(z3.IntVal(0), to_int(args[0]))
+            if len(args) == 2:
+                return _SymRange(to_int(args[0]), to_int(args[1]))
+            raise Unsupported('range with symbolic step')
         return range(*args)
     if f in (frozenset, set):
         items = list(I.iter_items(args[0])) if args else []
